@@ -936,6 +936,22 @@ func c08NestedProbes(rep *Report) {
 		}
 		rep.Eval("probe:"+in, true, "probe")
 	}
+	// 1c. a comment is not whitespace: Values() must not contain a Whitespace token where the source has only a comment
+	for _, in := range []string{"a{b:c/*m*/d}", "a{b:c/**//**/d;}", "a{x/**/y{}}"} {
+		units, _, ok := c08RunParser([]byte(in), false)
+		bad := !ok
+		for _, u := range units {
+			for _, v := range u.vals {
+				if v.tt == css.WhitespaceToken {
+					bad = true
+				}
+			}
+		}
+		if bad {
+			rep.Violate("wellformed-comment-space", fmt.Sprintf("css parser on %q: a dropped comment between two tokens is reported as a Whitespace(\" \") token that is not in the input: %s", in, show(units)), map[string]interface{}{"input": in})
+		}
+		rep.Eval("probe:"+in, true, "probe")
+	}
 	// 2. whitespace next to punctuation in the selector of a nested ruleset
 	var nestedWs []string
 	for _, c := range []string{",", ">", "+", "~"} {
